@@ -96,60 +96,211 @@ func RenderRequest(m *JobMethod, req proto.Message) (string, []byte) {
 	return target, body
 }
 
+// HdrCase is one request of the header-gate exploration: a valid request for the RPC whose header set is
+// either entirely acceptable (Kind "accept" / "noheaders") or has a non-empty subset of required headers made bad.
+type HdrCase struct {
+	K        string            `json:"k"`
+	ID       string            `json:"id"`
+	Unit     string            `json:"unit"`
+	Svc      string            `json:"svc"`
+	RPC      string            `json:"rpc"`
+	CellBase string            `json:"cell_base"`
+	Cell     string            `json:"cell"`
+	Kind     string            `json:"kind"` // accept | noheaders | reject
+	Verb     string            `json:"verb"`
+	Target   string            `json:"target"`
+	Headers  map[string]string `json:"headers"` // exact spelling as declared; absent headers are absent
+	Body     []byte            `json:"body"`
+	BodyKind string            `json:"body_kind"`
+	Hdr      string            `json:"hdr,omitempty"`    // accept: the header under test
+	Val      string            `json:"val,omitempty"`    // accept: its value
+	Type     string            `json:"type,omitempty"`   // accept: published type
+	Format   string            `json:"format,omitempty"` // accept: published format
+	Want     []string          `json:"want,omitempty"`   // reject: header names that must be listed
+	// EmptyPlain: members of Want sent with an empty value whose declaration is a plain string (no format) or array:
+	// whether "present but empty" satisfies such a header is not decided by the contract (the Go server treats it as missing)
+	EmptyPlain []string `json:"empty_plain,omitempty"`
+	Labels     []string `json:"labels,omitempty"`
+}
+
+// c09Cases enumerates the header-gate cases of one RPC, in a fixed order.
+func c09Cases(u *JobUnit, js *JobService, m *JobMethod, yield func(*HdrCase) error) error {
+	var req []JobHeader
+	for _, h := range m.Headers {
+		if h.Required {
+			req = append(req, h)
+		}
+	}
+	cellBase := fmt.Sprintf("%s,rpc=%s.%s", u.Cell, js.Name, m.Name)
+	target, body, _, err := validRequest(m)
+	if err != nil {
+		return err
+	}
+	n := 0
+	mk := func(kind, cell string, hv map[string]*string, b []byte, bodyKind string) *HdrCase {
+		hc := &HdrCase{K: "hdrcase", ID: fmt.Sprintf("%s|%s|%s|%05d", u.Name, js.Name, m.Name, n), Unit: u.Name, Svc: js.Name, RPC: m.Name, CellBase: cellBase, Cell: cell,
+			Kind: kind, Verb: m.Verb, Target: target, Headers: map[string]string{}, Body: b, BodyKind: bodyKind}
+		n++
+		for k, v := range hv {
+			if v != nil {
+				hc.Headers[k] = *v
+			}
+		}
+		return hc
+	}
+	good := map[string]*string{}
+	for _, h := range req {
+		v := ValidHeaderValue(h)
+		good[h.Name] = &v
+	}
+	// (1) all required headers valid, one header at a time through every must-accept exemplar
+	for _, h := range req {
+		for _, val := range model.MustAccept(h.Type, h.Format) {
+			val := val
+			hv := cloneHV(good)
+			hv[h.Name] = &val
+			hc := mk("accept", fmt.Sprintf("%s,hdr=%s,type=%s,format=%s#accept", cellBase, h.Name, orNone(h.Type), orNone(h.Format)), hv, body, "valid")
+			hc.Hdr, hc.Val, hc.Type, hc.Format = h.Name, val, h.Type, h.Format
+			if err := yield(hc); err != nil {
+				return err
+			}
+		}
+	}
+	if len(req) == 0 {
+		return yield(mk("noheaders", cellBase+"#noheaders", good, body, "valid"))
+	}
+	// (2) every non-empty subset of the required headers made bad, each in every way, x body valid/invalid
+	type badWay struct {
+		label string
+		val   *string
+	}
+	ways := func(h JobHeader) []badWay {
+		empty := ""
+		out := []badWay{{"absent", nil}, {"empty", &empty}}
+		for _, v := range model.MustReject(h.Type, h.Format) {
+			v := v
+			out = append(out, badWay{"malformed:" + v, &v})
+		}
+		return out
+	}
+	nr := len(req)
+	if nr > 4 {
+		nr = 4
+	}
+	for mask := 1; mask < 1<<nr; mask++ {
+		var subset []JobHeader
+		for b := 0; b < nr; b++ {
+			if mask&(1<<b) != 0 {
+				subset = append(subset, req[b])
+			}
+		}
+		// product over ways for singletons; first two ways for larger subsets (absent / empty) plus all-malformed
+		var combos [][]badWay
+		if len(subset) == 1 {
+			for _, w := range ways(subset[0]) {
+				combos = append(combos, []badWay{w})
+			}
+		} else {
+			for wi := 0; wi < 3; wi++ {
+				var c []badWay
+				for _, h := range subset {
+					ws := ways(h)
+					k := wi
+					if k >= len(ws) {
+						k = 0
+					}
+					c = append(c, ws[k])
+				}
+				combos = append(combos, c)
+			}
+		}
+		for _, combo := range combos {
+			for _, bodyKind := range []string{"valid", "malformed"} {
+				hv := cloneHV(good)
+				var want, labels, emptyPlain []string
+				for i, h := range subset {
+					if combo[i].label == "empty" && h.Format == "" && (h.Type == "" || h.Type == "string" || h.Type == "array") {
+						emptyPlain = append(emptyPlain, h.Name)
+					}
+					hv[h.Name] = combo[i].val
+					if combo[i].val == nil {
+						delete(hv, h.Name)
+					}
+					want = append(want, h.Name)
+					labels = append(labels, h.Name+"="+combo[i].label)
+				}
+				sort.Strings(want)
+				b := body
+				if bodyKind == "malformed" {
+					if !m.HasBody() {
+						continue
+					}
+					b = []byte(`{"unterminated`)
+				}
+				cls := "absent_or_empty"
+				for _, w := range combo {
+					if strings.HasPrefix(w.label, "malformed") {
+						cls = "malformed"
+					}
+				}
+				hc := mk("reject", fmt.Sprintf("%s,bad=%s,body=%s#%s", cellBase, hdrKey(subset), bodyKind, cls), hv, b, bodyKind)
+				hc.Want, hc.Labels, hc.EmptyPlain = want, labels, emptyPlain
+				if err := yield(hc); err != nil {
+					return err
+				}
+			}
+		}
+	}
+	return nil
+}
+
+// c09TSCases emits the cases for the TS server stage (the check forwards them to the node bridge).
+func c09TSCases(j *Job, u *JobUnit) error {
+	for si := range u.Services {
+		js := &u.Services[si]
+		for mi := range js.Methods {
+			if err := c09Cases(u, js, &js.Methods[mi], func(hc *HdrCase) error { Emit(hc); return nil }); err != nil {
+				return err
+			}
+		}
+	}
+	return nil
+}
+
 func c09Unit(j *Job, u *JobUnit) error {
+	if j.Params["stage"] == "tscases" {
+		return c09TSCases(j, u)
+	}
 	t := newTally()
 	defer t.flush()
 	f, err := newFixture(u.Name, nil)
 	if err != nil {
 		return err
 	}
-	for _, js := range u.Services {
+	for si := range u.Services {
+		js := &u.Services[si]
 		for mi := range js.Methods {
 			m := &js.Methods[mi]
-			var req []JobHeader
-			for _, h := range m.Headers {
-				if h.Required {
-					req = append(req, h)
-				}
-			}
-			cellBase := fmt.Sprintf("%s,rpc=%s.%s", u.Cell, js.Name, m.Name)
-			target, body, _, err := validRequest(m)
-			if err != nil {
-				return err
-			}
 			outDefault, _ := NewMessage(m.Out)
 			f.handler = func(context.Context, string, proto.Message) (proto.Message, error) { return outDefault, nil }
-			send := func(hv map[string]*string, b []byte) (*Exchange, error) {
+			err := c09Cases(u, js, m, func(hc *HdrCase) error {
 				hdr := http.Header{"Content-Type": {"application/json"}}
-				for k, v := range hv {
-					if v != nil {
-						hdr[k] = []string{*v} // exact spelling as declared
-					}
+				for k, v := range hc.Headers {
+					hdr[k] = []string{v} // exact spelling as declared
 				}
 				f.reset()
-				return f.wire.Do(m.Verb, target, hdr, b)
-			}
-			good := map[string]*string{}
-			for _, h := range req {
-				v := ValidHeaderValue(h)
-				good[h.Name] = &v
-			}
-			// (1) all required headers valid, one header at a time through every must-accept exemplar
-			for _, h := range req {
-				for _, val := range model.MustAccept(h.Type, h.Format) {
-					val := val
-					hv := cloneHV(good)
-					hv[h.Name] = &val
-					ex, err := send(hv, body)
-					if err != nil {
-						return err
-					}
-					cell := fmt.Sprintf("%s,hdr=%s,type=%s,format=%s#accept", cellBase, h.Name, orNone(h.Type), orNone(h.Format))
+				ex, err := f.wire.Do(hc.Verb, hc.Target, hdr, hc.Body)
+				if err != nil {
+					return err
+				}
+				cell, cellBase, labels := hc.Cell, hc.CellBase, hc.Labels
+				switch hc.Kind {
+				case "accept":
 					rejected := false
 					if ex.Status == 400 {
 						if ve, derr := decodeViolations(ex.RespBody, "application/json"); derr == nil {
 							for _, fl := range violationFields(ve) {
-								if strings.EqualFold(fl, h.Name) {
+								if strings.EqualFold(fl, hc.Hdr) {
 									rejected = true
 								}
 							}
@@ -157,134 +308,55 @@ func c09Unit(j *Job, u *JobUnit) error {
 					}
 					switch {
 					case ex.Panic != "":
-						t.viol(cell, "panic", clipS(ex.Panic), []string{val})
+						t.viol(cell, "panic", clipS(ex.Panic), []string{hc.Val})
 					case rejected:
-						t.viol(cell, "good_header_rejected", fmt.Sprintf("%s: %q (valid per published type=%s format=%s) -> %d %s", h.Name, val, h.Type, h.Format, ex.Status, clip(ex.RespBody)), []string{val})
+						t.viol(cell, "good_header_rejected", fmt.Sprintf("%s: %q (valid per published type=%s format=%s) -> %d %s", hc.Hdr, hc.Val, hc.Type, hc.Format, ex.Status, clip(ex.RespBody)), []string{hc.Val})
 						t.hit(cellBase, "good_header_rejected", true)
 					case len(f.calls) != 1:
-						t.viol(cell, "valid_request_not_dispatched", fmt.Sprintf("status=%d %s", ex.Status, clip(ex.RespBody)), []string{val})
+						t.viol(cell, "valid_request_not_dispatched", fmt.Sprintf("status=%d %s", ex.Status, clip(ex.RespBody)), []string{hc.Val})
 						t.hit(cellBase, "valid_request_not_dispatched", true)
 					default:
 						t.hit(cellBase, "accepted", true)
 					}
-				}
-			}
-			if len(req) == 0 {
-				ex, err := send(good, body)
-				if err != nil {
-					return err
-				}
-				if len(f.calls) != 1 {
-					t.viol(cellBase+"#noheaders", "valid_request_not_dispatched", fmt.Sprintf("status=%d %s", ex.Status, clip(ex.RespBody)), nil)
-				} else {
-					t.hit(cellBase, "accepted", false)
-				}
-				continue
-			}
-			// (2) every non-empty subset of the required headers made bad, each in every way, x body valid/invalid
-			type badWay struct {
-				label string
-				val   *string
-			}
-			ways := func(h JobHeader) []badWay {
-				empty := ""
-				out := []badWay{{"absent", nil}, {"empty", &empty}}
-				for _, v := range model.MustReject(h.Type, h.Format) {
-					v := v
-					out = append(out, badWay{"malformed:" + v, &v})
-				}
-				return out
-			}
-			n := len(req)
-			if n > 4 {
-				n = 4
-			}
-			for mask := 1; mask < 1<<n; mask++ {
-				var subset []JobHeader
-				for b := 0; b < n; b++ {
-					if mask&(1<<b) != 0 {
-						subset = append(subset, req[b])
+				case "noheaders":
+					if len(f.calls) != 1 {
+						t.viol(cell, "valid_request_not_dispatched", fmt.Sprintf("status=%d %s", ex.Status, clip(ex.RespBody)), nil)
+					} else {
+						t.hit(cellBase, "accepted", false)
 					}
-				}
-				// product over ways for singletons; first two ways for larger subsets (absent / empty) plus all-malformed
-				var combos [][]badWay
-				if len(subset) == 1 {
-					for _, w := range ways(subset[0]) {
-						combos = append(combos, []badWay{w})
-					}
-				} else {
-					for wi := 0; wi < 3; wi++ {
-						var c []badWay
-						for _, h := range subset {
-							ws := ways(h)
-							k := wi
-							if k >= len(ws) {
-								k = 0
-							}
-							c = append(c, ws[k])
-						}
-						combos = append(combos, c)
-					}
-				}
-				for _, combo := range combos {
-					for _, bodyKind := range []string{"valid", "malformed"} {
-						hv := cloneHV(good)
-						var want, labels []string
-						for i, h := range subset {
-							hv[h.Name] = combo[i].val
-							if combo[i].val == nil {
-								delete(hv, h.Name)
-							}
-							want = append(want, h.Name)
-							labels = append(labels, h.Name+"="+combo[i].label)
-						}
-						sort.Strings(want)
-						b := body
-						if bodyKind == "malformed" {
-							if !m.HasBody() {
-								continue
-							}
-							b = []byte(`{"unterminated`)
-						}
-						ex, err := send(hv, b)
-						if err != nil {
-							return err
-						}
-						cls := "absent_or_empty"
-						for _, w := range combo {
-							if strings.HasPrefix(w.label, "malformed") {
-								cls = "malformed"
-							}
-						}
-						cell := fmt.Sprintf("%s,bad=%s,body=%s#%s", cellBase, hdrKey(subset), bodyKind, cls)
+				default:
+					want := hc.Want
+					switch {
+					case ex.Panic != "":
+						t.viol(cell, "panic", clipS(ex.Panic), labels)
+					case len(f.calls) > 0:
+						t.viol(cell, "bad_header_dispatched", fmt.Sprintf("%v -> %d, handler ran", labels, ex.Status), labels)
+						t.hit(cellBase, "bad_header_dispatched", true)
+					case ex.Status != 400:
+						t.viol(cell, "not_400", fmt.Sprintf("%v -> %d %s", labels, ex.Status, clip(ex.RespBody)), labels)
+						t.hit(cellBase, "not_400", true)
+					default:
+						ve, derr := decodeViolations(ex.RespBody, "application/json")
+						got := violationFields(ve)
 						switch {
-						case ex.Panic != "":
-							t.viol(cell, "panic", clipS(ex.Panic), labels)
-						case len(f.calls) > 0:
-							t.viol(cell, "bad_header_dispatched", fmt.Sprintf("%v -> %d, handler ran", labels, ex.Status), labels)
-							t.hit(cellBase, "bad_header_dispatched", true)
-						case ex.Status != 400:
-							t.viol(cell, "not_400", fmt.Sprintf("%v -> %d %s", labels, ex.Status, clip(ex.RespBody)), labels)
-							t.hit(cellBase, "not_400", true)
+						case derr != nil:
+							t.viol(cell, "malformed_400_body", derr.Error()+" "+clip(ex.RespBody), labels)
+							t.hit(cellBase, "malformed_400_body", true)
+						case strings.Join(got, ",") != strings.Join(want, ","):
+							t.viol(cell, "violation_set_differs", fmt.Sprintf("%v: want violations for %v, got %v", labels, want, got), labels)
+							t.hit(cellBase, "violation_set_differs", true)
+						case ex.BodyReadsBeforeCommit != 0:
+							t.viol(cell, "body_read_before_header_verdict", fmt.Sprintf("%d body reads before the 400 was written", ex.BodyReadsBeforeCommit), labels)
+							t.hit(cellBase, "body_read_before_header_verdict", true)
 						default:
-							ve, derr := decodeViolations(ex.RespBody, "application/json")
-							got := violationFields(ve)
-							switch {
-							case derr != nil:
-								t.viol(cell, "malformed_400_body", derr.Error()+" "+clip(ex.RespBody), labels)
-								t.hit(cellBase, "malformed_400_body", true)
-							case strings.Join(got, ",") != strings.Join(want, ","):
-								t.viol(cell, "violation_set_differs", fmt.Sprintf("%v: want violations for %v, got %v", labels, want, got), labels)
-								t.hit(cellBase, "violation_set_differs", true)
-							case ex.BodyReadsBeforeCommit != 0:
-								t.viol(cell, "body_read_before_header_verdict", fmt.Sprintf("%d body reads before the 400 was written", ex.BodyReadsBeforeCommit), labels)
-								t.hit(cellBase, "body_read_before_header_verdict", true)
-							default:
-								t.hit(cellBase, "rejected_400_exact_set", true)
-							}
+							t.hit(cellBase, "rejected_400_exact_set", true)
 						}
 					}
 				}
+				return nil
+			})
+			if err != nil {
+				return err
 			}
 		}
 	}
